@@ -39,7 +39,7 @@ func (lam *Lambda) Call(s *Scope, args List, depth int) (result Object) {
 	ss.Macro = ss.Macro || lam.Macro
 	ss.Block = true
 	if 0 < len(lam.Doc.Name) {
-		ss.Name = Symbol(lam.Doc.Name)
+		ss.Name = Symbol(strings.ToLower(lam.Doc.Name))
 	}
 	if need := lam.Doc.requiredCount(); len(args) < need {
 		ErrorPanic(s, depth, "Too few arguments to %s. At least %d expected but got %d.", lam, need, len(args))
